@@ -1,4 +1,5 @@
-\* t_z5stale: see checks/ringlookup_common.py (UNIVERSES) for what this universe is for
+\* t_z5stale: C02: 5 single-token instances, zones 0..5, ACTIVE x {edge,stale}
+\* (generated from UNIVERSES in checks/ringlookup_common.py: python3 checks/ringlookup_common.py --write-cfgs)
 CONSTANTS
   NK = 6
   Gaps = {3}
@@ -11,10 +12,13 @@ CONSTANTS
   RFMax = 5
   Canon = 2
   WithRemove = FALSE
+  Excl = {}
   EmitOn = TRUE
+  EmitSets = TRUE
+  XMax = 0
 INIT Init
 NEXT Next
 VIEW View
-INVARIANTS TypeOK SizeOK ZoneOK ClockwiseFirst SlackExact WalkDefsAgree QuorumIntersection Emit
+INVARIANTS TypeOK SizeOK ZoneOK ClockwiseFirst SlackExact WalkDefsAgree QuorumIntersection ExpandedOK Emit
 PROPERTIES MinimalDisruption
 CHECK_DEADLOCK FALSE
